@@ -17,7 +17,7 @@ ASSUMPTIONS = ["an upload error reply makes the library raise by design; the rai
                "small generation batches (the statement's quantifier); the production batch (812) is used in a few thorough histories",
                "histories are sampled"]
 REQUIRED = ["histories", "checkpoints", "uploads_seen", "keys_offered", "keys_confirmed", "unconfirmed_uploads", "reoffers_seen",
-            "keys_consumed", "replays", "restarts", "signatures_verified", "error_replies", "overlap_cases", "other_requests_during_upload", "signed_prekey_checks", "stray_iq_during_upload"]
+            "keys_consumed", "replays", "restarts", "signatures_verified", "error_replies", "overlap_cases", "other_requests_during_upload", "signed_prekey_checks", "stray_iq_during_upload", "login_with_pending_keys_checked", "reduced_success_logins"]
 TIMEOUT = {"quick": 600, "thorough": 7200}
 
 EVENTS = ["login", "ask-keys", "ask-keys-overlap", "other-requests-during-upload", "ask-keys-lost-reply", "ask-keys-error", "disconnect", "restart", "peer-first-message", "replay-first-message",
@@ -184,9 +184,15 @@ def one_history(acc, seed, tag, batch=None):
         W.script = list(W.script[:W.script_pos]) + actions
         return W.run(max_steps=W.steps + 20000)
 
+    reduced = [False]
+
     def expected_errors():
         c = W.clients[A]
         rest = [e for e in c.errors if "Sent keys were not accepted" not in e["msg"]]
+        if reduced[0]:
+            # the library cannot parse a <success> without 'creation' / 't' (TypeError from int(None), after it has announced the
+            # login): how it reports that is not this property's business, what happens to the pending keys is
+            rest = [e for e in rest if not (e["type"] == "TypeError" and "int()" in e["msg"])]
         return rest
 
     try:
@@ -196,7 +202,28 @@ def one_history(acc, seed, tag, batch=None):
                 if ev == "login-lost-reply":
                     W.server.hold_upload_reply.add(A)
                 if not c.connected:
+                    _, pend0 = store_keys(c)
+                    acct0 = W.server.accounts.get(c.jid)
+                    n_up0 = len(acct0.uploads) if acct0 else 0
+                    if r.random() < 0.2:
+                        # the server's success reply comes without one of its optional attributes
+                        W.server.reduced_success_drop = (r.choice(["creation", "t", "props", "location"]),)
+                        W.server.reduced_success_once.add(A)
+                        reduced[0] = True
+                        acc.count("reduced_success_logins")
                     run_actions([{"op": "connect", "who": A}])
+                    # "keys whose upload was not confirmed are offered again at the next login": the login was accepted by the
+                    # server (success sent on this connection), so an upload containing every key that was pending has to follow
+                    acct1 = W.server.accounts.get(W.clients[A].jid)
+                    ups = (acct1.uploads[n_up0:] if acct1 else [])
+                    offered_now = set(hexid(k[0]) for u in ups for k in u["keys"])
+                    if pend0 and W.counters.get("srv_success_sent:" + A, 1) and not pend0 <= offered_now:
+                        acc.count("login_with_pending_keys_checked")
+                        acc.violation("pending-keys-not-offered-at-login", "the account logged in with %d keys pending upload (ids %s...) but %s" % (len(pend0), sorted(pend0)[:4],
+                                      "no upload followed" if not ups else "the upload(s) that followed lacked %s" % sorted(pend0 - offered_now)[:4]), dict(w, at=[ei, ev]))
+                        ok = False
+                    elif pend0:
+                        acc.count("login_with_pending_keys_checked")
                 if ev == "login-lost-reply":
                     W.server.hold_upload_reply.discard(A)
                     if any(u["confirmed"] is False for u in (W.server.accounts.get(c.jid).uploads if W.server.accounts.get(c.jid) else [])):
